@@ -202,6 +202,13 @@ def circuit_case(case):
             for o0, o1 in zip(ops, b.operations):
                 if tuple(o0.qubit_indices) != tuple(o1.qubit_indices):
                     return {"ok": False, "msg": "Circuit.bind changed operation order/indices", "sig": "circuit:order", "ops": k}
+                # binding a circuit is binding each operation: same gate structure (kind, nesting, name, arity) as the operation bound on its own
+                from mc.snapshot import operation as opsnap
+
+                def skeleton(d):
+                    return {kk: (skeleton(v) if isinstance(v, dict) else v) for kk, v in d.items() if kk not in ("params",)} if isinstance(d, dict) else d
+                if skeleton(opsnap(o1)) != skeleton(opsnap(o0.bind(m))) or o1.gate.num_qubits != o0.gate.num_qubits:
+                    return {"ok": False, "msg": "Circuit.bind turned operation %s into %s (binding the operation on its own gives %s)" % (o0, o1, o0.bind(m)), "sig": "circuit:operation-changed", "ops": k}
                 M0 = eval_matrix(o0.gate.matrix.subs(m, simultaneous=True), asg)
                 M1 = eval_matrix(o1.gate.matrix, asg)
                 U = L.embed(M0, tuple(o0.qubit_indices), n) @ U
